@@ -325,59 +325,27 @@ theorem rlatres_fine (h : ℤ) (h2 : 1 ≤ h) (hmax : h ≤ 2 ^ 31) :
   rw [e53] at this
   linarith
 
-/-- **the row index of `Geoid::height`**: `−1 ≤ iy ≤ h − 2` for every position (row −1 can only come from a latitude
-    whose product with the rounded `_rlatres` exceeds `(h−1)/2`: the open finding "north-pole-row") -/
-theorem locF_iy_range (f : File) (h3 : 3 ≤ f.h) (hmax : f.h ≤ 2 ^ 31) (lat lon : F64) (ix iy : ℤ) (fx fy : F64)
-    (h : locF f lat lon = some (ix, iy, fx, fy)) : -1 ≤ iy ∧ iy ≤ f.h - 2 := by
+/-- **the row index of `Geoid::height`**: `0 ≤ iy ≤ h − 2` for every position — the clamp at both ends (repair 63168e3 of
+    finding F72) keeps latitude +90 in the first row of cells and latitude −90 in the last one, whatever the two
+    roundings of `90·((h−1)/180)` do -/
+theorem locF_iy_range (f : File) (h3 : 3 ≤ f.h) (lat lon : F64) (ix iy : ℤ) (fx fy : F64)
+    (h : locF f lat lon = some (ix, iy, fx, fy)) : 0 ≤ iy ∧ iy ≤ f.h - 2 := by
   unfold locF at h
   simp only [] at h
   by_cases hnan : ((MathF.latFix lat).isNaN || (MathF.angNormalize lon).isNaN) = true
   · rw [if_pos hnan] at h; exact absurd h (by simp)
   · rw [if_neg hnan] at h
-    have hlatN : (MathF.latFix lat).isNaN = false := by
-      cases hh : (MathF.latFix lat).isNaN <;> simp_all
-    -- latFix lat is lat, finite, in [−90, 90]
-    have hlf : (MathF.latFix lat).isFinite = true := by
-      obtain ⟨h1, _⟩ := Props.C16.latFix_spec lat
-      rcases h1 with h1 | h1
-      · rw [h1] at hlatN ⊢
-        cases lat with
-        | nan => simp [F64.isNaN] at hlatN
-        | fin s m e => rfl
-        | inf s =>
-          exfalso
-          have : MathF.latFix (F64.inf s) = F64.nan := by
-            unfold MathF.latFix; cases s <;> rfl
-          rw [this] at h1; cases h1
-      · rw [h1] at hlatN; cases hlatN
-    obtain ⟨eL, bL⟩ := latFix_fin lat hlf
-    rw [eL] at hlf
-    obtain ⟨fL, l0, l1⟩ := rlatres_val f.h (by omega) hmax
-    have lfine := rlatres_fine f.h (by omega) hmax
-    obtain ⟨fn, vn⟩ := neg_val lat hlf
-    rw [eL] at h
-    set L := F64.ofInt (f.h - 1) / F64.ofInt Gen.MathC.hd with hLdef
-    have hb := abs_le.mp bL
-    have hhq : ((f.h - 1 : ℤ):ℚ) ≤ 2147483648 := by exact_mod_cast (by omega : f.h - 1 ≤ 2147483648)
-    have hh0 : (0:ℚ) ≤ ((f.h - 1 : ℤ):ℚ) := by exact_mod_cast (by omega : (0:ℤ) ≤ f.h - 1)
-    have e53 : (2:ℚ) ^ (-(53:ℤ)) = 1 / 9007199254740992 := by norm_num
-    have e1075 : (2:ℚ) ^ (-(1075:ℤ)) ≤ 1 / 9007199254740992 := by
-      have : (2:ℚ) ^ (-(1075:ℤ)) ≤ (2:ℚ) ^ (-(53:ℤ)) := zpow_le_zpow_right₀ (by norm_num) (by norm_num)
-      rw [e53] at this; exact this
-    rw [e53] at lfine
-    -- the half height as an integer
-    have hhalf : ((f.h - 1) / 2 : ℤ) * 2 ≤ f.h - 1 ∧ f.h - 1 ≤ ((f.h - 1) / 2 : ℤ) * 2 + 1 := by omega
-    have hq1 : (((f.h - 1) / 2 : ℤ) : ℚ) * 2 + 1 ≥ ((f.h - 1 : ℤ) : ℚ) := by exact_mod_cast hhalf.2
-    have lowb := (fl_mul_bounds (F64.neg lat) L fn fL (-((f.h - 1) / 2) - 1) (f.h) (by rw [abs_le]; constructor <;> omega)
-      (by rw [abs_le]; constructor <;> omega)
-      (by rw [vn]; push_cast; push_cast at lfine hq1 hh0 hhq; nlinarith [mul_nonneg (by linarith : (0:ℚ) ≤ 90 - lat.val) l0])
-      (by rw [vn]; push_cast at l1 hh0 hhq ⊢; nlinarith [mul_nonneg (by linarith : (0:ℚ) ≤ 90 + lat.val) l0])).1
     simp only [Option.some.injEq, Prod.mk.injEq] at h
     obtain ⟨_, hiy, _⟩ := h
     rw [← hiy]
-    constructor
-    · simp only [Int.min_def]; split_ifs <;> omega
-    · simp only [Int.min_def]; split_ifs <;> omega
+    simp only [Int.min_def, Int.max_def]
+    constructor <;> split_ifs <;> omega
+
+/-- what the clamp cures: on a raster of height 59 the unclamped row of latitude +90 is `⌊−90·fl(58/180)⌋ = −30`, one
+    below `−(h−1)/2 = −29` (the two roundings end above 29) -/
+theorem north_row_needs_clamp :
+    fl (F64.neg (F64.ofInt 90) * (F64.ofInt (59 - 1) / F64.ofInt Gen.MathC.hd)) = -30 ∧ -((59 - 1) / 2 : ℤ) = -29 := by
+  decide +kernel
 
 end Geoid
 end GeoVerif
